@@ -1,0 +1,12 @@
+//! Verification facade for the (private) target modules. Compiled only with
+//! the cargo feature `verif-hooks`; add-only, exposes and never alters
+//! behaviour.
+
+/// file-out: the real `FileRunner` (its `run` loop is public, the module is
+/// not).
+pub mod file {
+    pub use crate::targets::file::target::FileRunner;
+}
+
+/// mqtt-out: the real `MqttRunner` driven with a capturing MQTT client.
+pub use super::mqtt::verif as mqtt;
